@@ -82,12 +82,12 @@ fn gen_multi(ch: &mut Ch, thorough: bool) -> Option<Case> {
         return None;
     }
     let ts = match shape {
-        0 => TypeSpec { is_enum: false, variants: vec![VariantSpec { kind: VKind::Tuple, fields }], style: KeyStyle::Distinct },
-        1 => TypeSpec { is_enum: false, variants: vec![VariantSpec { kind: VKind::Named, fields }], style: KeyStyle::Distinct },
-        2 => TypeSpec { is_enum: true, variants: vec![VariantSpec { kind: VKind::Tuple, fields: fields.clone() }, VariantSpec { kind: VKind::Unit, fields: vec![] }, VariantSpec { kind: VKind::Named, fields }], style: KeyStyle::Distinct },
+        0 => TypeSpec { is_enum: false, variants: vec![VariantSpec { kind: VKind::Tuple, fields }], style: KeyStyle::Distinct, shared_arg: None },
+        1 => TypeSpec { is_enum: false, variants: vec![VariantSpec { kind: VKind::Named, fields }], style: KeyStyle::Distinct, shared_arg: None },
+        2 => TypeSpec { is_enum: true, variants: vec![VariantSpec { kind: VKind::Tuple, fields: fields.clone() }, VariantSpec { kind: VKind::Unit, fields: vec![] }, VariantSpec { kind: VKind::Named, fields }], style: KeyStyle::Distinct, shared_arg: None },
         _ => {
             let rev: Vec<FieldSpec> = fields.iter().rev().cloned().collect();
-            TypeSpec { is_enum: true, variants: vec![VariantSpec { kind: VKind::Unit, fields: vec![] }, VariantSpec { kind: VKind::Named, fields }, VariantSpec { kind: VKind::Tuple, fields: rev }, VariantSpec { kind: VKind::Tuple, fields: vec![] }], style: KeyStyle::Distinct }
+            TypeSpec { is_enum: true, variants: vec![VariantSpec { kind: VKind::Unit, fields: vec![] }, VariantSpec { kind: VKind::Named, fields }, VariantSpec { kind: VKind::Tuple, fields: rev }, VariantSpec { kind: VKind::Tuple, fields: vec![] }], style: KeyStyle::Distinct, shared_arg: None }
         }
     };
     Some(Case { gen: "multi", vector: ch.vector(), ts, derived, entry })
